@@ -15,7 +15,7 @@
    Definitions only; proofs are in Proofs/HistoryProofs.v. *)
 From Coq Require Import Strings.String Strings.Ascii.
 From Coq Require Import NArith List Bool Arith Decimal DecimalNat.
-From CL Require Import Base.Str.
+From CL Require Import Base.Str Generated.FactsC18.
 Import ListNotations.
 Local Open Scope nat_scope.
 
@@ -86,6 +86,7 @@ Definition modelled_items : list item := [
   Item "compare_locales.parser" "__all__" "module-const" Const;
   Item "compare_locales.parser" "__constructors" "module-const" Const;
   Item "compare_locales.parser.android" "AndroidEntity.wrap/child.data" "param-attr-written" PerOp;
+  Item "compare_locales.parser.android" "XMLJunk.junkid" "class-attr-subclass-copy" Counter;
   Item "compare_locales.parser.base" "Comment._val_cache" "instance-attr" PerObjectCache;
   Item "compare_locales.parser.base" "Junk.junkid" "class-attr-written" Counter;
   Item "compare_locales.parser.base" "Parser.Context._lines" "instance-attr" CtxLocal;
@@ -262,6 +263,7 @@ Record gstate := G {
   g_heap : list ctx;                    (* every Context ever created; index = identity *)
   g_pctx : fmt -> option nat;           (* Parser.ctx of each singleton *)
   g_junkid : nat;                       (* Junk.junkid *)
+  g_xjunkid : option nat;               (* XMLJunk.junkid: created by the first XMLJunk, see [bump] *)
   g_dtdtext : str;                      (* DTDChecker.texthandler.textcontent *)
   g_cfgver : nat -> nat;                (* content version of each ProjectConfig object *)
   g_fcache : nat -> option (str * FC);  (* ProjectConfig._cache: (locale, entry) *)
@@ -270,29 +272,31 @@ Record gstate := G {
 }.
 
 Definition init : gstate :=
-  G [] (fun _ => None) 0 [] (fun _ => 0) (fun _ => None) (fun _ => None) (fun _ => None).
+  G [] (fun _ => None) 0 None [] (fun _ => 0) (fun _ => None) (fun _ => None) (fun _ => None).
 
 Definition upd {T} (f : nat -> T) (k : nat) (v : T) : nat -> T :=
   fun k' => if Nat.eqb k' k then v else f k'.
 Definition upd_str {T} (f : str -> T) (k : str) (v : T) : str -> T :=
   fun k' => if str_eqb k' k then v else f k'.
 
-Definition set_heap (st : gstate) h :=
-  G h (g_pctx st) (g_junkid st) (g_dtdtext st) (g_cfgver st) (g_fcache st) (g_recache st) (g_mcache st).
-Definition set_pctx (st : gstate) p :=
-  G (g_heap st) p (g_junkid st) (g_dtdtext st) (g_cfgver st) (g_fcache st) (g_recache st) (g_mcache st).
-Definition set_junkid (st : gstate) j :=
-  G (g_heap st) (g_pctx st) j (g_dtdtext st) (g_cfgver st) (g_fcache st) (g_recache st) (g_mcache st).
-Definition set_dtdtext (st : gstate) t :=
-  G (g_heap st) (g_pctx st) (g_junkid st) t (g_cfgver st) (g_fcache st) (g_recache st) (g_mcache st).
-Definition set_cfgver (st : gstate) v :=
-  G (g_heap st) (g_pctx st) (g_junkid st) (g_dtdtext st) v (g_fcache st) (g_recache st) (g_mcache st).
-Definition set_fcache (st : gstate) c :=
-  G (g_heap st) (g_pctx st) (g_junkid st) (g_dtdtext st) (g_cfgver st) c (g_recache st) (g_mcache st).
-Definition set_recache (st : gstate) c :=
-  G (g_heap st) (g_pctx st) (g_junkid st) (g_dtdtext st) (g_cfgver st) (g_fcache st) c (g_mcache st).
-Definition set_mcache (st : gstate) c :=
-  G (g_heap st) (g_pctx st) (g_junkid st) (g_dtdtext st) (g_cfgver st) (g_fcache st) (g_recache st) c.
+Definition set_heap (st : gstate) x :=
+  G x (g_pctx st) (g_junkid st) (g_xjunkid st) (g_dtdtext st) (g_cfgver st) (g_fcache st) (g_recache st) (g_mcache st).
+Definition set_pctx (st : gstate) x :=
+  G (g_heap st) x (g_junkid st) (g_xjunkid st) (g_dtdtext st) (g_cfgver st) (g_fcache st) (g_recache st) (g_mcache st).
+Definition set_junkid (st : gstate) x :=
+  G (g_heap st) (g_pctx st) x (g_xjunkid st) (g_dtdtext st) (g_cfgver st) (g_fcache st) (g_recache st) (g_mcache st).
+Definition set_xjunkid (st : gstate) x :=
+  G (g_heap st) (g_pctx st) (g_junkid st) x (g_dtdtext st) (g_cfgver st) (g_fcache st) (g_recache st) (g_mcache st).
+Definition set_dtdtext (st : gstate) x :=
+  G (g_heap st) (g_pctx st) (g_junkid st) (g_xjunkid st) x (g_cfgver st) (g_fcache st) (g_recache st) (g_mcache st).
+Definition set_cfgver (st : gstate) x :=
+  G (g_heap st) (g_pctx st) (g_junkid st) (g_xjunkid st) (g_dtdtext st) x (g_fcache st) (g_recache st) (g_mcache st).
+Definition set_fcache (st : gstate) x :=
+  G (g_heap st) (g_pctx st) (g_junkid st) (g_xjunkid st) (g_dtdtext st) (g_cfgver st) x (g_recache st) (g_mcache st).
+Definition set_recache (st : gstate) x :=
+  G (g_heap st) (g_pctx st) (g_junkid st) (g_xjunkid st) (g_dtdtext st) (g_cfgver st) (g_fcache st) x (g_mcache st).
+Definition set_mcache (st : gstate) x :=
+  G (g_heap st) (g_pctx st) (g_junkid st) (g_xjunkid st) (g_dtdtext st) (g_cfgver st) (g_fcache st) (g_recache st) x.
 
 Fixpoint replace_nth {T} (n : nat) (x : T) (l : list T) : list T :=
   match l, n with
@@ -321,8 +325,28 @@ Fixpoint ents_of (j c : nat) (t : str) (es : list pentry) : list ent :=
   | PLit k v a :: r => E (Some c) (KStr k) (PLit k v a) :: ents_of j c t r
   end.
 
+(* Junk.__init__ does `self.__class__.junkid += 1`: for an XMLJunk (the only
+   junk AndroidParser makes, and nobody else makes one — checked by the
+   translator, [xmljunk_parsers]) this reads Junk.junkid through the class the
+   first time and from then on XMLJunk has a counter of its own *)
+Definition xml_fmt (f : fmt) : bool := existsb (Nat.eqb f) xmljunk_parsers.
+
+(* the value the next Junk of parser f increments *)
+Definition eff (st : gstate) (f : fmt) : nat :=
+  if xml_fmt f then match g_xjunkid st with Some x => x | None => g_junkid st end
+  else g_junkid st.
+
+Definition bump (st : gstate) (f : fmt) (n : nat) : gstate :=
+  if xml_fmt f then
+    match n with
+    | O => st                                   (* no XMLJunk made: no attribute created *)
+    | _ => set_xjunkid st (Some (eff st f + n))
+    end
+  else set_junkid st (g_junkid st + n).
+
 (* Parser.parse() / walk() on the parser's CURRENT context: reads contents and
-   flag through self.ctx, leaves the flag on that context, advances junkid *)
+   flag through self.ctx, leaves the flag on that context, advances the junk
+   counter of its Junk class *)
 Definition walk (st : gstate) (f : fmt) : gstate * list ent :=
   match g_pctx st f with
   | None => (st, [])                           (* `if not self.ctx: return` *)
@@ -331,10 +355,9 @@ Definition walk (st : gstate) (f : fmt) : gstate * list ent :=
       | None => (st, [])                       (* no dangling reference exists (proved) *)
       | Some cx =>
           let r := walk_fn f (c_contents cx) (c_flag cx) in
-          (set_junkid
-             (set_heap st (replace_nth c (Ctx (c_contents cx) (snd r)) (g_heap st)))
-             (g_junkid st + ncons (fst r)),
-           ents_of (g_junkid st) c (c_contents cx) (fst r))
+          (bump (set_heap st (replace_nth c (Ctx (c_contents cx) (snd r)) (g_heap st)))
+                f (ncons (fst r)),
+           ents_of (eff st f) c (c_contents cx) (fst r))
       end
   end.
 
@@ -521,11 +544,23 @@ Arguments G {FC RX MRX}.
 Arguments g_heap {FC RX MRX}.
 Arguments g_pctx {FC RX MRX}.
 Arguments g_junkid {FC RX MRX}.
+Arguments g_xjunkid {FC RX MRX}.
 Arguments g_dtdtext {FC RX MRX}.
 Arguments g_cfgver {FC RX MRX}.
 Arguments g_fcache {FC RX MRX}.
 Arguments g_recache {FC RX MRX}.
 Arguments g_mcache {FC RX MRX}.
+Arguments set_heap {FC RX MRX}.
+Arguments set_pctx {FC RX MRX}.
+Arguments set_junkid {FC RX MRX}.
+Arguments set_xjunkid {FC RX MRX}.
+Arguments set_dtdtext {FC RX MRX}.
+Arguments set_cfgver {FC RX MRX}.
+Arguments set_fcache {FC RX MRX}.
+Arguments set_recache {FC RX MRX}.
+Arguments set_mcache {FC RX MRX}.
+Arguments eff {FC RX MRX}.
+Arguments bump {FC RX MRX}.
 Arguments OEnts {V} es.
 Arguments OVal {V} v.
 Arguments ONone {V}.
